@@ -29,6 +29,69 @@ theorem tokens_contiguous (limit : Nat) (inp : Bytes) : Contiguous (lexWith limi
 example : ((lex #[120, 32, 49, 46, 32, 121]).tokens.map (fun t => (t.ty, t.startOff, t.endOff))) =
     [(9, 0, 0), (2, 1, 1), (0, 3, 3), (8, 2, 3), (2, 4, 4), (9, 5, 5)] := by decide
 
+/-! ## The lexer port: positions -/
+
+/-- `"日本\(x)"`: the `\(` token starts at byte offset 7, which is line 1 column 3; it is reported at column 4
+    (and the string token before it, ending in the 3-byte rune `本` at column 2, gets end column 3). -/
+theorem linecol_witness_multibyte :
+    let inp : Bytes := #[34, 0xE6, 0x97, 0xA5, 0xE6, 0x9C, 0xAC, 92, 40, 120, 41, 34]
+    (∃ t ∈ (lex inp).tokens, t.ty = T.stringTemplate ∧ t.startOff = 7 ∧ t.startPos = ⟨1, 4⟩) ∧ lineCol inp 7 = (1, 3) ∧
+    (∃ t ∈ (lex inp).tokens, t.ty = T.string ∧ t.endOff = 6 ∧ t.endPos = ⟨1, 3⟩) ∧ lineCol inp 6 = (1, 2) := by
+  decide
+
+/-- `"\(x)\(y)"` (ASCII only): the empty string token between the two templates shifts the second `\(`
+    (byte offset 5 = column 5) to column 6. -/
+theorem linecol_witness_empty_token :
+    let inp : Bytes := #[34, 92, 40, 120, 41, 92, 40, 121, 41, 34]
+    (∃ t ∈ (lex inp).tokens, t.ty = T.string ∧ t.startOff = 5 ∧ t.endOff = 4) ∧
+    (∃ t ∈ (lex inp).tokens, t.ty = T.stringTemplate ∧ t.startOff = 5 ∧ t.startPos = ⟨1, 6⟩) ∧ lineCol inp 5 = (1, 5) := by
+  decide
+
+/-- an unterminated block comment ends the token stream without a token for its content: the tokens do not
+    reach the end of the input although no error token was emitted -/
+theorem coverage_witness_unterminated_comment :
+    let r := lex #[47, 42, 32, 97]
+    r.stop = .done (.blockComment 0) ∧ r.tokens.map (fun t => (t.ty, t.startOff, t.endOff)) = [(T.blockCommentStart, 0, 1)] := by
+  decide
+
+/-! ## The lexer port: totality (partial) -/
+
+/-- Every predicate the source passes to `acceptWhile` is false on `EOF` (so `acceptWhile` stops at the end
+    of the input; the port's `acceptWhileN` relies on it for its fuel bound). -/
+theorem preds_false_on_EOF :
+    isSpaceRune EOF = false ∧ isIdentifierRune EOF = false ∧ notLineEnd EOF = false ∧ isBinary EOF = false ∧
+    isOctal EOF = false ∧ isHex EOF = false ∧ isDecimalDigitOrUnderscore EOF = false := by decide
+
+/-- PARTIAL (totality).  Full statement wanted (`lex_total`): for every input, `run (fuelFor inp)` never returns
+    `Stop.outOfFuel` and the final `err` is `none` or `tokenLimit` (no "second backup", no slice panic, no
+    exhausted loop fuel).  Proved here: the building blocks.  From any state that is inside the input
+    (`startOffset ≤ endOffset ≤ len`, no error other than the token limit) the loops `acceptWhile f` (for every
+    predicate of the source), `scanString`, and `emitType` / `emitError` (once a rune has been read) end in
+    such a state again, with `endOffset` not smaller than before: in particular their fuel
+    (`len + 1 - endOffset`) is never exhausted, `backupOne` never panics, and no slice expression is out of
+    range.  MISSING: the composition through the seven state functions and the measure argument for `run`'s
+    fuel `2·len + 4`; for those the `lex` stream flags any `hang` / `err-other` of the port or of Go as a
+    `crash` violation on every generated input. -/
+theorem lex_loops_total_partial (l : L) (h : Verif.Proofs.Lexer.InBounds l) :
+    let n := l.input.size
+    let m := l.endOffset
+    Verif.Proofs.Lexer.A n m (acceptWhile isSpaceRune l) ∧ Verif.Proofs.Lexer.A n m (acceptWhile isIdentifierRune l) ∧
+    Verif.Proofs.Lexer.A n m (acceptWhile notLineEnd l) ∧ Verif.Proofs.Lexer.A n m (acceptWhile isBinary l) ∧
+    Verif.Proofs.Lexer.A n m (acceptWhile isOctal l) ∧ Verif.Proofs.Lexer.A n m (acceptWhile isHex l) ∧
+    Verif.Proofs.Lexer.A n m (acceptWhile isDecimalDigitOrUnderscore l) ∧ Verif.Proofs.Lexer.A n m (scanString l) ∧
+    (1 ≤ l.endOffset → ∀ ty, Verif.Proofs.Lexer.A n m (emitType ty l)) ∧
+    (1 ≤ l.endOffset → Verif.Proofs.Lexer.A n m (emitError l)) := by
+  have hd := preds_false_on_EOF
+  exact ⟨Verif.Proofs.Lexer.acceptWhile_A _ hd.1 l h, Verif.Proofs.Lexer.acceptWhile_A _ hd.2.1 l h,
+    Verif.Proofs.Lexer.acceptWhile_A _ hd.2.2.1 l h, Verif.Proofs.Lexer.acceptWhile_A _ hd.2.2.2.1 l h,
+    Verif.Proofs.Lexer.acceptWhile_A _ hd.2.2.2.2.1 l h, Verif.Proofs.Lexer.acceptWhile_A _ hd.2.2.2.2.2.1 l h,
+    Verif.Proofs.Lexer.acceptWhile_A _ hd.2.2.2.2.2.2 l h, Verif.Proofs.Lexer.scanString_A l h,
+    fun h1 ty => Verif.Proofs.Lexer.emitType_A ty l h h1, fun h1 => Verif.Proofs.Lexer.emitError_A l h h1⟩
+
+/-- non-vacuity: the initial state of every input is in bounds -/
+example (inp : Bytes) (limit : Nat) : Verif.Proofs.Lexer.InBounds (L.init inp limit) :=
+  ⟨rfl, Nat.le_refl _, Nat.zero_le _, Nat.le_refl _, Or.inl rfl⟩
+
 /-! ## FX: the pooled lexer object starts in the model's initial state -/
 
 /-- fields that `clear()` deliberately does not reset: both are assigned by `Lex` right after `clear()` -/
